@@ -23,6 +23,8 @@ const EVL: u32 = 1;
 const LATE: u32 = 2;
 const RESTR: u32 = 4;
 const LIGHT: u32 = 8;
+// bit4 = the root's initial transition is internal (reader-built models): the root is never in the configuration
+const ROOTI: u32 = 16;
 
 harnesses! {
     // per-change tier: one fully symbolic transition, event selection
@@ -40,6 +42,8 @@ harnesses! {
     h_sc2_s0 => sc_step(0, 2, 0), h_sc2_s1 => sc_step(1, 2, 0), h_sc2_s2 => sc_step(2, 2, 0), h_sc2_s3 => sc_step(3, 2, LIGHT),
     h_sc2_s4 => sc_step(4, 2, 0), h_sc2_s5 => sc_step(5, 2, LIGHT), h_sc2_s6 => sc_step(6, 2, 0), h_sc2_s7 => sc_step(7, 2, LIGHT),
     h_sc2_s8 => sc_step(8, 2, LIGHT), h_sc2_s9 => sc_step(9, 2, 0), h_sc2_s10 => sc_step(10, 2, LIGHT), h_sc2_s11 => sc_step(11, 2, LIGHT),
+    // reader-built root (never entered): per-change tier on one shape of each family
+    h_sc1i_s1 => sc_step(1, 1, ROOTI), h_sc1i_s3 => sc_step(3, 1, LIGHT | ROOTI), h_sc1i_s4 => sc_step(4, 1, ROOTI), h_sc1i_s6 => sc_step(6, 1, ROOTI), h_sc1i_s7 => sc_step(7, 1, LIGHT | ROOTI),
     h_start_all => sc_startup(),
 }
 
@@ -127,7 +131,8 @@ fn discipline(sh: &Shape, pre: u32, log: &[u32]) -> bool {
 
 /// One selection round and one microstep from an arbitrary legal pre-state with `nt` symbolic ordinary transitions.
 fn sc_step(shape_ix: u32, nt: u32, mode: u32) {
-    let sh = shape_by_index(shape_ix);
+    let mut sh = shape_by_index(shape_ix);
+    sh.root_internal = mode & ROOTI != 0;
     let mut ts = Vec::new();
     let mut guards = Vec::new();
     let mut hist_inside = false;
@@ -212,8 +217,9 @@ fn sc_step(shape_ix: u32, nt: u32, mode: u32) {
 /// start-up of every catalogue shape: enterStates([root initial]) yields the reference configuration and trace
 fn sc_startup() {
     let ix = vnd_range(0, NSHAPES - 1, 1);
-    let sh = shape_by_index(ix);
+    let mut sh = shape_by_index(ix);
     let late = vnd_bool(2);
+    sh.root_internal = vnd_bool(3);
     let m = Model { sh, ts: Vec::new(), late };
     let mut fsm = build_fsm(&m);
     let g = new_global();
